@@ -83,8 +83,10 @@ def run(chk, repo, tier):
                         par = _parent(f.node, n)
                         ok = isinstance(par, ast.Attribute) and par.attr in (meth_attr, 'free_symbols', 'subs',
                                                                              'edges', 'nodes', 'copy')
-                        ok = ok or isinstance(par, (ast.For, ast.comprehension, ast.If, ast.Compare, ast.Call,
-                                                    ast.BoolOp, ast.UnaryOp, ast.Assert, ast.keyword))
+                        ok = ok or isinstance(par, (ast.For, ast.comprehension, ast.If, ast.Compare,
+                                                    ast.BoolOp, ast.UnaryOp, ast.Assert))
+                        # the graph is handed to helpers (_comps(self._g)); plain expression fields are not
+                        ok = ok or (isinstance(par, (ast.Call, ast.keyword)) and (fld == '_g' or acc == 'free_symbols'))
                         if isinstance(par, ast.Call) and acc == 'free_symbols' and dotted(par.func) in ('set',):
                             ok = False
                         if isinstance(par, ast.Set) and fld in SYMBOL_FIELDS:
